@@ -30,10 +30,10 @@ def programs(tier, kinds=('example', 'ok', 'verif')):
     return out
 
 
-def jobs_for(tier, aspects, only_eof=False):
+def jobs_for(tier, aspects, only_eof=False, kinds=('example', 'ok', 'verif')):
     cfgs = CONFIGS_QUICK if tier == 'quick' else CONFIGS_THOROUGH
     js = []
-    for label, src in programs(tier):
+    for label, src in programs(tier, kinds):
         for cname, flags in cfgs:
             if only_eof and '-feof-support' not in flags and '-feof-support' not in nm.split_args(src):
                 continue
@@ -88,6 +88,8 @@ def work(job):
                     finds += stepcmp.step_state(L, m, sidx, False, alloc, st, want=want)
                 if 'end' in aspects and L.eof:
                     finds += stepcmp.step_state(L, m, sidx, True, alloc, st, want=want)
+                if 'c04' in aspects and comp.cfg['YIELD_SUPPORT'] and comp.dctx.yield_codes:
+                    finds += multicall.c04_yield_state(L, sidx, alloc, st)
                 if 'c02' in aspects:
                     for f in multicall.c02_state(L, sidx, alloc, job.get('L', 2), st):
                         f['sym'] = 'chunk'; finds.append(f)
@@ -181,7 +183,7 @@ def replay_finding(comp, L, m, f):
         t1 = replay.observable_trace(clog, [0]); t2 = replay.observable_trace(alog, [0])
         diff = replay.traces_differ(t1, t2)
         return {'reproduced': diff is not None, 'diff': diff, 'c': t1[-2:], 'abstract': t2[-2:]}
-    calls = [('end',)] if f['sym'] == 'end' else [('feed', [f.get('byte', 0)])]
+    calls = [('end',)] if f['sym'] == 'end' else [('feed', [f.get('byte', 0)])]   # sym in ('byte', 'yield', ...)
     sc = {'pre': f['pre'], 'calls': calls}
     if f['kind'] in ('c03-mem', 'c03-inv'):
         if f['sym'] == 'start':
@@ -209,6 +211,9 @@ def replay_finding(comp, L, m, f):
         return res
     if f['kind'] == 'c04-unwind':
         clog, diag = replay.run_c(comp, L.layout, sc, timeout=10)
+        if f['sym'] == 'yield':
+            ys = [e for e in (clog or []) if e[0] == 'RET' and e[1].startswith('YIELD_')]
+            return {'reproduced': len(ys) >= 1000 and len({e[2] for e in ys[-500:]}) == 1, 'yields_seen': len(ys)}
         return {'reproduced': bool(clog and any(e[0] == 'TIMEOUT' for e in clog)), 'clog': (clog or [])[-2:]}
     clog, diag = replay.run_c(comp, L.layout, sc)
     if clog is None:
